@@ -1126,6 +1126,16 @@ func (fr *frame) binop(x *ssa.BinOp, where string) Value {
 			}
 		}
 	case *PtrVal:
+		if o, ok := b.(*OpaqueVal); ok && av.isNilTerm().IsTrue() {
+			eq := o.Nil
+			if eq == nil {
+				eq = False
+			}
+			if x.Op == token.EQL {
+				return eq
+			}
+			return Not(eq)
+		}
 		bv := b.(*PtrVal)
 		switch x.Op {
 		case token.EQL:
@@ -1177,6 +1187,17 @@ func (fr *frame) binop(x *ssa.BinOp, where string) Value {
 			return eq
 		}
 		return Not(eq)
+	case *OpaqueVal:
+		if p, ok := b.(*PtrVal); ok && p.isNilTerm().IsTrue() {
+			eq := av.Nil
+			if eq == nil {
+				eq = False
+			}
+			if x.Op == token.EQL {
+				return eq
+			}
+			return Not(eq)
+		}
 	case *FuncVal:
 		bv := b.(*FuncVal)
 		eq := Bool(av.Fn == nil && bv.Fn == nil)
